@@ -58,7 +58,7 @@ TDrop == IsEvent("drop") /\ Drop(ev.h) /\ UNCHANGED searched
 TSearch == /\ IsEvent("search") /\ Search(ev.h, ev.d)
            /\ OutMatches(SearchResult(ev.h, ev.d), ev.out)                       \* C13: a function of (text, registry, document)
            /\ ev.docs_same                                                       \* C13: inputs unchanged
-           /\ ("fresh_same" \in DOMAIN ev => ev.fresh_same)                       \* C13: the whole outcome -- message text included -- is what a
+           /\ ("fresh_same" \in DOMAIN ev => ev.fresh_same) /\ ("repeat_same" \in DOMAIN ev => ev.repeat_same)                       \* C13: the whole outcome -- message text included -- is what a
                                                                                  \*      runtime with no history gives for the same text and document
            /\ (LET o == SearchResult(ev.h, ev.d) c == CallLog(live[ev.h].tree, docs[ev.d], reg[live[ev.h].rt])
                IN o.amb \/ CallsMatch(c.log, ev.calls))                          \* C15: callbacks, evaluated arguments, order
@@ -77,7 +77,7 @@ NextReset(i) == IF i > Len(Rec) THEN i ELSE IF Rec[i].e = "reset" THEN i ELSE Ne
 SearchDiag ==
   IF ev.e = "search" /\ "h" \in DOMAIN ev /\ ev.h \in DOMAIN live /\ ev.d \in DOMAIN docs
   THEN LET o == SearchResult(ev.h, ev.d) c == CallLog(live[ev.h].tree, docs[ev.d], reg[live[ev.h].rt])
-       IN [outok |-> OutMatches(o, ev.out) /\ ("fresh_same" \in DOMAIN ev => ev.fresh_same), docsok |-> ev.docs_same, callsok |-> o.amb \/ CallsMatch(c.log, ev.calls),
+       IN [outok |-> OutMatches(o, ev.out) /\ ("fresh_same" \in DOMAIN ev => ev.fresh_same) /\ ("repeat_same" \in DOMAIN ev => ev.repeat_same), docsok |-> ev.docs_same, callsok |-> o.amb \/ CallsMatch(c.log, ev.calls),
            expected |-> o, expcalls |-> c.log]
   ELSE [outok |-> TRUE, docsok |-> TRUE, callsok |-> TRUE, expected |-> [none |-> TRUE], expcalls |-> <<>>]
 
